@@ -1,10 +1,10 @@
 #!/bin/bash
-# verify_seeded.sh <property> : confirm the two agent-made mutants of one property in its scratch worktree
+# verify_seeded.sh <property> [root=/tmp/mut] [variants="A B"] : confirm the two agent-made mutants of one property in its scratch worktree
 # (patch applies, pinned suite passes, demo fails with the patch and passes without)
-P=$1; WT=/tmp/mut/$P; OUT=/tmp/mut/out/$P
+P=$1; ROOT=${2:-/tmp/mut}; VARS=${3:-A B}; WT=$ROOT/$P; OUT=$ROOT/out/$P
 cd $WT || exit 2
 git checkout -q -- . ; git clean -fdq
-for V in A B; do
+for V in $VARS; do
   D=$OUT/$V; [ -f $D/patch.diff ] || { echo "$P/$V: no patch"; continue; }
   R=$D/verify.txt; : > $R
   PYTHONPATH=$WT /venv/bin/python $D/demo.py > $D/demo_clean.log 2>&1; echo "demo_clean_exit=$?" >> $R
